@@ -9,7 +9,7 @@ open ESV ESV.Beh
 theorem cgCases_cons {lv : Nat} {sw : String} {nf d : Bool} {name : String} {ps : List Param} {body : Stmts} {r : Cases}
     (h : cgCases lv sw nf (.cons d name ps body r) = true) :
     (d = true ∨ (isTest name = true ∧ isTest (caseName sw name) = true)) ∧ (d = true ∨ loneExit body = false ∨ nf = true) ∧
-    cgStmts lv body = true ∧ cgCases lv sw (if body.isNil then nf else endsFlowStmts body) r = true := by
+    cgStmts lv body = true ∧ cgCases lv sw (if body.isNil then nf else (endsFlowStmts body || surelyFallsStmts body)) r = true := by
   simp only [cgCases, Bool.and_eq_true, Bool.or_eq_true, Bool.not_eq_true'] at h
   exact ⟨h.1.1.1, by rcases h.1.1.2 with (a | a) | a <;> simp [a], h.1.2, h.2⟩
 
